@@ -186,4 +186,278 @@ theorem C01_gen_sim_program (b : Block) (hb : FragBlock b) (code : List Instr)
   refine ⟨rfl, ?_⟩
   simp only [Vm.finish, hk2.unnamed, List.foldl_nil, State.emit, hk2.trace]
 
+
+/-! ## non-vacuity
+
+Two concrete scripts of the fragment, compiled with `Gen.genProgram`, loaded with `Loader.load`,
+run by `Vm.run` and by `Sem.run`: the hypotheses of the theorems hold for them, and — checked
+independently by evaluation in the kernel — the traces are equal.
+
+`printf` does not occur in them: both `Sem` and `Vm` compute a `printf` through
+`String.replace`, which the kernel cannot evaluate (it is defined by an opaque well-founded
+fixpoint), so no closed `printf` example can be checked by `decide`; the `printf` case of the
+theorem is `Sim.stmt_printf`. -/
+section Examples
+namespace Sim.C01Ex
+
+deriving instance DecidableEq for TP.Pat
+deriving instance DecidableEq for Val
+deriving instance DecidableEq for Event
+deriving instance DecidableEq for Src
+deriving instance DecidableEq for Instr
+
+theorem eq_of_fst {p : Outcome × S} (h : p.1 = .normal) : p = (.normal, p.2) := by
+  obtain ⟨o, s⟩ := p
+  simp only at h
+  rw [h]
+
+/-- two lights of one group, one matrix light -/
+def c01Lights : List Light :=
+  [⟨"a", "g", "home", .plain, [0, 0, 0, 0], 0⟩, ⟨"b", "g", "home", .plain, [0, 0, 0, 0], 0⟩]
+
+/-- ```
+hue 120 saturation 50 brightness 25 kelvin 2700 duration 2
+assign x 3
+if {x > 2} { print "big"  if {x > 5} { println "huge" } else { set group "g" } } else { print "small" }
+repeat 3 { assign x {x + 1}  print x }
+repeat while {x < 100} { if {x >= 8} { break }  assign x {x * 2} }
+println x
+on all
+``` -/
+def c01Script : Block := Block.ofList [
+  .setReg .hue (.lit (.int 120)), .setReg .saturation (.lit (.int 50)),
+  .setReg .brightness (.lit (.int 25)), .setReg .kelvin (.lit (.int 2700)),
+  .setReg .duration (.lit (.int 2)),
+  .assign "x" (.lit (.int 3)),
+  .ite (.expr (.bin .gt (.var "x") (.lit (.int 2))))
+    (Block.ofList [.print (.lit (.str "big")),
+      .ite (.expr (.bin .gt (.var "x") (.lit (.int 5))))
+        (Block.ofList [.println (some (.lit (.str "huge")))])
+        (some (Block.ofList [.action .set (.cons (.group (.str "g")) .nil)]))])
+    (some (Block.ofList [.print (.lit (.str "small"))])),
+  .repeat_ (.count (.lit (.int 3)))
+    (Block.ofList [.assign "x" (.expr (.bin .add (.var "x") (.lit (.int 1)))), .print (.var "x")]),
+  .repeat_ (.while_ (.expr (.bin .lt (.var "x") (.lit (.int 100)))))
+    (Block.ofList [.ite (.expr (.bin .gte (.var "x") (.lit (.int 8)))) (Block.ofList [.brk]) none,
+      .assign "x" (.expr (.bin .mul (.var "x") (.lit (.int 2))))]),
+  .println (some (.var "x")),
+  .actAll .on]
+
+
+/-- what `Gen.genProgram` makes of it (77 instructions) -/
+def c01Code : List Instr := [
+  .moveq (.int 120) (.reg .hue), .moveq (.int 50) (.reg .saturation),
+  .moveq (.int 25) (.reg .brightness), .moveq (.int 2700) (.reg .kelvin),
+  .moveq (.int 2) (.reg .duration), .moveq (.int 3) (.var "x"),
+  .push (.var "x"), .pushq (.int 2), .op .gt, .pop (.reg .result), .jump .ifFalse 19,
+  .moveq (.str "big") (.reg .result), .out .register (.reg .result), .out .print (.lit .none),
+  .push (.var "x"), .pushq (.int 5), .op .gt, .pop (.reg .result), .jump .ifFalse 6,
+  .moveq (.str "huge") (.reg .result), .out .register (.reg .result), .out .print (.lit .none),
+  .out .printEnd (.lit .none), .jump .always 5,
+  .wait, .moveq (.str "g") (.reg .name), .moveq (.operand .group) (.reg .operand), .color,
+  .jump .always 4,
+  .moveq (.str "small") (.reg .result), .out .register (.reg .result), .out .print (.lit .none),
+  .loop, .moveq (.int 3) (.loopVar .counter),
+  .push (.loopVar .counter), .pushq (.int 0), .op .gt, .pop (.reg .result), .jump .ifFalse 13,
+  .push (.var "x"), .pushq (.int 1), .op .add, .pop (.var "x"),
+  .move (.var "x") (.reg .result), .out .register (.reg .result), .out .print (.lit .none),
+  .push (.loopVar .counter), .pushq (.int 1), .op .sub, .pop (.loopVar .counter),
+  .jump .always (-16), .endLoop,
+  .loop, .push (.var "x"), .pushq (.int 100), .op .lt, .pop (.reg .result), .jump .ifFalse 12,
+  .push (.var "x"), .pushq (.int 8), .op .gte, .pop (.reg .result), .jump .ifFalse 2,
+  .jump .always 6,
+  .push (.var "x"), .pushq (.int 2), .op .mul, .pop (.var "x"),
+  .jump .always (-15), .endLoop,
+  .move (.var "x") (.reg .result), .out .register (.reg .result), .out .print (.lit .none),
+  .out .printEnd (.lit .none),
+  .moveq (.bool true) (.reg .power), .wait, .moveq (.operand .all) (.reg .operand), .power]
+
+theorem c01Script_frag : FragBlock c01Script := by
+  simp only [c01Script, Block.ofList, FragBlock, FragStmt, FragOperands, FragOperand, RvOK, LoopHdrOK]
+  refine ⟨?_, ?_, ?_, ?_, ?_, ?_, ?_, ?_, ?_, ?_, ?_, ?_⟩
+  all_goals first
+    | trivial
+    | decide
+    | (repeat' constructor) <;> decide
+
+set_option maxRecDepth 8000 in
+theorem c01Script_code : Gen.genProgram c01Script = some c01Code := by
+  simp [Gen.genProgram, c01Script, Block.ofList, genBlock, genStmt, genRv, genExpr, genIf, genLoop,
+    assembleLoop, patchBreaks_eq, patchRec, genOperands, genOperand, genName, opcodeOf, ins,
+    counterTest, testOp, loopPost, counter, result, pushLit, c01Code]
+
+
+
+/-- the source-level run ends normally -/
+theorem c01Script_sem : (Sem.run 200 c01Script c01Lights).1 = .normal := by decide +kernel
+
+/-- `C01_gen_sim_program` applied: the machine halts with the source-level trace -/
+example : ∃ k, (run ⟨c01Code.toArray, []⟩ k (Vm.init c01Lights)).status = .halted ∧
+    (Vm.finish (run ⟨c01Code.toArray, []⟩ k (Vm.init c01Lights))).trace =
+      .flush :: (Sem.run 200 c01Script c01Lights).2.vm.trace :=
+  C01_gen_sim_program c01Script c01Script_frag c01Code c01Script_code [] 200 c01Lights
+    (Sem.run 200 c01Script c01Lights).2 (eq_of_fst c01Script_sem)
+
+/-- the loader leaves a script without routines as it is -/
+example : (Loader.load c01Code).code.toList = c01Code ∧ (Loader.load c01Code).routines = [] := by
+  decide +kernel
+
+/-- both runs, by evaluation: the machine, running the loaded image of the compiled script,
+halts, and leaves exactly the source-level trace followed by the final flush -/
+example : (Vm.run (Loader.load c01Code) 500 (Vm.init c01Lights)).status = .halted := by
+  decide +kernel
+
+example : (Vm.finish (Vm.run (Loader.load c01Code) 500 (Vm.init c01Lights))).trace =
+    .flush :: (Sem.run 200 c01Script c01Lights).2.vm.trace := by decide +kernel
+
+/-- the trace itself: one group of events per executed statement, in program order -/
+example : (Sem.run 200 c01Script c01Lights).2.vm.trace.reverse =
+    [.out (.str "big"),
+     .setColor "a" [21845, 32768, 16384, 2700] 2000, .setColor "b" [21845, 32768, 16384, 2700] 2000,
+     .out (.int 4), .out (.int 5), .out (.int 6),
+     .out (.int 12), .newline,
+     .allPower 1 2000] := by decide +kernel
+
+/-! ### second script: macros, raw units, a delay, `get`, zones, a matrix given inline and as a
+block, `break` out of a matrix body inside `repeat`, `define default`, `off` with an `and` list
+(name from an undefined variable, group, location) -/
+
+def c01Lights2 : List Light :=
+  [⟨"a", "g", "home", .plain, [100, 200, 300, 3000], 0⟩, ⟨"m", "g", "home", .matrix 2 2, [0, 0, 0, 0], 0⟩,
+   ⟨"z", "h", "home", .multizone 8, [0, 0, 0, 0], 0⟩]
+
+def c01Script2 : Block := Block.ofList [
+  .defMacro "N" (.int 2),
+  .units .raw,
+  .setReg .time (.lit (.int 500)), .wait, .setReg .time (.lit (.int 0)),
+  .get (.lit (.str "a")),
+  .setReg .duration (.var "N"),
+  .action .set (.cons (.zone (.str "z") ⟨.lit (.int 1), some (.expr (.bin .add (.var "N") (.lit (.int 1))))⟩)
+    (.cons (.light (.str "a")) .nil)),
+  .action .set (.cons (.matrixInline (.str "m") (some ⟨.lit (.int 0), none⟩)
+    (some ⟨.lit (.int 0), some (.lit (.int 1))⟩) false) .nil),
+  .repeat_ .forever (Block.ofList [
+    .action .set (.cons (.matrixBlock (.str "m") (Block.ofList [
+      .setReg .hue (.lit (.int 1000)),
+      .stage (some ⟨.lit (.int 1), none⟩) none false,
+      .ite (.reg .hue) (Block.ofList [.brk]) none])) .nil),
+    .print (.lit (.str "not reached"))]),
+  .setDefault,
+  .action .off (.cons (.light (.var "who")) (.cons (.group (.str "g")) (.cons (.location (.str "home")) .nil))),
+  .actAll .set]
+
+
+def c01Code2 : List Instr :=
+  [Instr.constant "N" (Val.int 2),
+  Instr.moveq (Val.mode (UnitMode.raw)) (Dst.reg (Reg.unitMode)),
+  Instr.moveq (Val.int 500) (Dst.reg (Reg.time)),
+  Instr.wait,
+  Instr.moveq (Val.int 0) (Dst.reg (Reg.time)),
+  Instr.moveq (Val.str "a") (Dst.reg (Reg.result)),
+  Instr.move (Src.reg (Reg.result)) (Dst.reg (Reg.name)),
+  Instr.getColor,
+  Instr.move (Src.var "N") (Dst.reg (Reg.duration)),
+  Instr.wait,
+  Instr.moveq (Val.str "z") (Dst.reg (Reg.name)),
+  Instr.moveq (Val.int 1) (Dst.reg (Reg.firstZone)),
+  Instr.push (Src.var "N"),
+  Instr.pushq (Val.int 1),
+  Instr.op (Operator.add),
+  Instr.pop (Dst.reg (Reg.lastZone)),
+  Instr.moveq (Val.operand (Operand.mzLight)) (Dst.reg (Reg.operand)),
+  Instr.color,
+  Instr.moveq (Val.str "a") (Dst.reg (Reg.name)),
+  Instr.moveq (Val.operand (Operand.light)) (Dst.reg (Reg.operand)),
+  Instr.color,
+  Instr.wait,
+  Instr.moveq (Val.str "m") (Dst.reg (Reg.name)),
+  Instr.matrix,
+  Instr.moveq (Val.operand (Operand.matrix)) (Dst.reg (Reg.operand)),
+  Instr.moveq (Val.int 0) (Dst.reg (Reg.firstRow)),
+  Instr.moveq (Val.none) (Dst.reg (Reg.lastRow)),
+  Instr.moveq (Val.int 0) (Dst.reg (Reg.firstColumn)),
+  Instr.moveq (Val.int 1) (Dst.reg (Reg.lastColumn)),
+  Instr.color,
+  Instr.endMatrix,
+  Instr.moveq (Val.operand (Operand.matrixLight)) (Dst.reg (Reg.operand)),
+  Instr.color,
+  Instr.loop,
+  Instr.moveq (Val.bool true) (Dst.reg (Reg.result)),
+  Instr.jump (JumpCond.ifFalse) 21,
+  Instr.wait,
+  Instr.moveq (Val.str "m") (Dst.reg (Reg.name)),
+  Instr.matrix,
+  Instr.moveq (Val.int 1000) (Dst.reg (Reg.hue)),
+  Instr.moveq (Val.operand (Operand.matrix)) (Dst.reg (Reg.operand)),
+  Instr.moveq (Val.int 1) (Dst.reg (Reg.firstRow)),
+  Instr.moveq (Val.none) (Dst.reg (Reg.lastRow)),
+  Instr.moveq (Val.none) (Dst.reg (Reg.firstColumn)),
+  Instr.moveq (Val.none) (Dst.reg (Reg.lastColumn)),
+  Instr.color,
+  Instr.move (Src.reg (Reg.hue)) (Dst.reg (Reg.result)),
+  Instr.jump (JumpCond.ifFalse) 2,
+  Instr.jump (JumpCond.always) 8,
+  Instr.endMatrix,
+  Instr.moveq (Val.operand (Operand.matrixLight)) (Dst.reg (Reg.operand)),
+  Instr.color,
+  Instr.moveq (Val.str "not reached") (Dst.reg (Reg.result)),
+  Instr.out (IoOp.register) (Src.reg (Reg.result)),
+  Instr.out (IoOp.print) (Src.lit (Val.none)),
+  Instr.jump (JumpCond.always) (-21),
+  Instr.endLoop,
+  Instr.wait,
+  Instr.moveq (Val.operand (Operand.default)) (Dst.reg (Reg.operand)),
+  Instr.color,
+  Instr.moveq (Val.bool false) (Dst.reg (Reg.power)),
+  Instr.wait,
+  Instr.move (Src.var "who") (Dst.reg (Reg.name)),
+  Instr.moveq (Val.operand (Operand.light)) (Dst.reg (Reg.operand)),
+  Instr.power,
+  Instr.moveq (Val.str "g") (Dst.reg (Reg.name)),
+  Instr.moveq (Val.operand (Operand.group)) (Dst.reg (Reg.operand)),
+  Instr.power,
+  Instr.moveq (Val.str "home") (Dst.reg (Reg.name)),
+  Instr.moveq (Val.operand (Operand.location)) (Dst.reg (Reg.operand)),
+  Instr.power,
+  Instr.wait,
+  Instr.moveq (Val.operand (Operand.all)) (Dst.reg (Reg.operand)),
+  Instr.color]
+
+theorem c01Script2_frag : FragBlock c01Script2 := by
+  simp only [c01Script2, Block.ofList, FragBlock, FragStmt, FragOperands, FragOperand, RvOK, LoopHdrOK,
+    ORangeOK, RangeOK]
+  refine ⟨?_, ?_, ?_, ?_, ?_, ?_, ?_, ?_, ?_, ?_, ?_, ?_, ?_⟩
+  all_goals first
+    | trivial
+    | decide
+    | (repeat' constructor) <;> first | trivial | decide
+
+set_option maxRecDepth 8000 in
+theorem c01Script2_code : Gen.genProgram c01Script2 = some c01Code2 := by
+  simp [Gen.genProgram, c01Script2, Block.ofList, genBlock, genStmt, genRv, genExpr, genIf, genLoop,
+    assembleLoop, patchBreaks_eq, patchRec, genOperands, genOperand, genName, opcodeOf, ins,
+    genRange, genMatrixRanges, result, pushLit, c01Code2]
+
+theorem c01Script2_sem : (Sem.run 200 c01Script2 c01Lights2).1 = .normal := by decide +kernel
+
+example : ∃ k, (run ⟨c01Code2.toArray, []⟩ k (Vm.init c01Lights2)).status = .halted ∧
+    (Vm.finish (run ⟨c01Code2.toArray, []⟩ k (Vm.init c01Lights2))).trace =
+      .flush :: (Sem.run 200 c01Script2 c01Lights2).2.vm.trace :=
+  C01_gen_sim_program c01Script2 c01Script2_frag c01Code2 c01Script2_code [] 200 c01Lights2
+    (Sem.run 200 c01Script2 c01Lights2).2 (eq_of_fst c01Script2_sem)
+
+example : (Vm.finish (Vm.run (Loader.load c01Code2) 500 (Vm.init c01Lights2))).trace =
+    .flush :: (Sem.run 200 c01Script2 c01Lights2).2.vm.trace := by decide +kernel
+
+example : (Sem.run 200 c01Script2 c01Lights2).2.vm.trace.reverse =
+    [.pause (.num (1 / 2)), .getColor "a",
+     .setZones "z" 1 4 [100, 200, 300, 3000] 2, .setColor "a" [100, 200, 300, 3000] 2,
+     .setTile "m" [[100, 200, 300, 3000], [100, 200, 300, 3000], [0, 0, 0, 0], [0, 0, 0, 0]] 2 2 2,
+     .warn "light not found",
+     .setPower "a" 0 2, .setPower "m" 0 2, .setPower "a" 0 2, .setPower "m" 0 2, .setPower "z" 0 2,
+     .allColor [1000, 200, 300, 3000] 2] := by decide +kernel
+
+end Sim.C01Ex
+end Examples
+
 end Bardolph
